@@ -5,6 +5,7 @@ import itertools
 from lib import pyvals as pv
 
 ID = "C14"
+LOG_LEVEL_INVARIANT = True      # (harness/vp.py: a sample of the cases again with logging at DEBUG; same observables)
 RUN_MODULE = "RunC14"
 DRIVER = "matcher_driver.py"
 SHARD = 1200
